@@ -5,6 +5,15 @@
 // drops and re-acquires its session (re-attach => new epoch) while sends are in flight; the stream
 // of either peer dies silently with a relayed message in flight (reconnect while the relay still
 // holds the old stream: the usurp path); callers give up on a Send after 1-3 ms.
+//
+// The receiving applications poll Recv with every kind of caller context (long-lived, already
+// cancelled, past its deadline, cancelled a few microseconds after the call, deadlines of a few
+// microseconds): only a Recv that RETURNS a message (nil error) hands it to the application, and
+// that is what the C21 monitors count. A request of a chosen kind (send / ack / clear) of either
+// peer can be held on the wire inside the pipe's Send (the client's main loop is between its
+// critical section and the return of the write) while the partner re-attaches or its stream
+// fails and re-connects; the write is released once the holder has processed the re-open (client
+// hook event), the real relay drops the stale-epoch request, and every served Send must complete.
 package main
 
 import (
@@ -15,6 +24,7 @@ import (
 	"strconv"
 	"strings"
 	"sync"
+	"sync/atomic"
 	"time"
 
 	"github.com/aperturerobotics/bifrost/peer"
@@ -67,6 +77,18 @@ func (c *clientEnd) Send(m *signaling.SessionRequest) error {
 		return io.ErrUnexpectedEOF
 	default:
 	}
+	// a held write: the request is on the wire, the write has not returned (back-pressure); the
+	// relay receives it when the gate opens
+	if g := c.p.w.takeGate(c.p.src, m); g != nil {
+		close(g.held)
+		select {
+		case <-g.release:
+		case <-c.p.severed:
+			return io.ErrUnexpectedEOF
+		case <-c.p.ctx.Done():
+			return context.Canceled
+		}
+	}
 	select {
 	case c.p.c2s <- m:
 		return nil
@@ -74,6 +96,116 @@ func (c *clientEnd) Send(m *signaling.SessionRequest) error {
 		return io.ErrUnexpectedEOF
 	case <-c.p.ctx.Done():
 		return context.Canceled
+	}
+}
+
+// wgate holds the next request of one kind that peer src writes to the relay.
+type wgate struct {
+	src     int
+	kind    string // send | ack | clear
+	held    chan struct{}
+	release chan struct{}
+	relOnce sync.Once
+	req     *signaling.SessionRequest
+}
+
+func (g *wgate) open() { g.relOnce.Do(func() { close(g.release) }) }
+
+func (g *wgate) waitHeld(d time.Duration) bool {
+	select {
+	case <-g.held:
+		return true
+	case <-time.After(d):
+		return false
+	}
+}
+
+func reqKind(m *signaling.SessionRequest) string {
+	switch m.GetBody().(type) {
+	case *signaling.SessionRequest_SendMsg:
+		return "send"
+	case *signaling.SessionRequest_AckMsg:
+		return "ack"
+	case *signaling.SessionRequest_ClearMsg:
+		return "clear"
+	}
+	return "other"
+}
+
+func (w *world) armGate(src int, kind string) *wgate {
+	g := &wgate{src: src, kind: kind, held: make(chan struct{}), release: make(chan struct{})}
+	w.mtx.Lock()
+	w.gates = append(w.gates, g)
+	w.mtx.Unlock()
+	return g
+}
+
+func (w *world) takeGate(src int, m *signaling.SessionRequest) *wgate {
+	kind := reqKind(m)
+	w.mtx.Lock()
+	defer w.mtx.Unlock()
+	for i, g := range w.gates {
+		if g.src == src && g.kind == kind {
+			w.gates = append(w.gates[:i:i], w.gates[i+1:]...)
+			g.req = m
+			return g
+		}
+	}
+	return nil
+}
+
+// disarm removes a gate nobody reached and opens it in any case.
+func (w *world) disarm(g *wgate) {
+	w.mtx.Lock()
+	for i, x := range w.gates {
+		if x == g {
+			w.gates = append(w.gates[:i:i], w.gates[i+1:]...)
+			break
+		}
+	}
+	w.mtx.Unlock()
+	g.open()
+}
+
+// failPipe breaks the current stream of peer src (both ends notice): its tracker re-connects.
+func (w *world) failPipe(src int) {
+	w.mtx.Lock()
+	var cur *pipe
+	for _, p := range w.pipes {
+		if p.src == src {
+			cur = p
+		}
+	}
+	w.mtx.Unlock()
+	if cur != nil {
+		cur.cancel()
+	}
+}
+
+// cmark is the current length of the client hook log.
+func (w *world) cmark() int {
+	w.mtx.Lock()
+	defer w.mtx.Unlock()
+	return len(w.clog)
+}
+
+// waitCHook waits for a client hook line logged at or after `from` by a tracker of peer `src`.
+func (w *world) waitCHook(from, src int, d time.Duration, pred func(line string) bool) bool {
+	deadline := time.Now().Add(d)
+	for {
+		w.mtx.Lock()
+		for i := from; i < len(w.clog); i++ {
+			if w.tkrOf[lineKV(w.clog[i], "tkr")] == src && pred(w.clog[i]) {
+				w.mtx.Unlock()
+				return true
+			}
+		}
+		from = len(w.clog)
+		w.mtx.Unlock()
+		if time.Now().After(deadline) {
+			return false
+		}
+		time.Sleep(50 * time.Microsecond)
 	}
 }
 func (c *clientEnd) Recv() (*signaling.SessionResponse, error) {
@@ -226,6 +358,7 @@ type engine struct {
 	keep         []any // server stream ends of finished scenarios: their addresses are never reused
 	usurps       int
 	forcedCancel bool
+	variant      string // which write is held and what disturbs the session (scenario reopen-during-write)
 }
 
 type appEvent struct {
@@ -251,6 +384,7 @@ type world struct {
 	ends    []*serverEnd
 	app     []appEvent
 	active  int // goroutines started on behalf of Session RPCs that have not ended yet
+	gates   []*wgate
 }
 
 // takeSever reports whether the stream of peer src dies with the relayed message being written now.
@@ -384,22 +518,61 @@ func (e *engine) scenario(kind string, nMsgs int) {
 		return s
 	}
 	sides := []*side{nil, mk(1), mk(2)}
-	// both applications receive forever (re-acquiring the ref when it is replaced)
+	// both applications receive forever (re-acquiring the ref when it is replaced). The callers'
+	// contexts are of every kind: long-lived (30 ms), already cancelled, past their deadline, a
+	// deadline a few microseconds away, cancelled by a timer a few microseconds after the call. In
+	// scenario recv-cancelled peer 2 polls ONLY with contexts that are already done. Only a call
+	// that returns a message with a nil error hands it to the application (appEvent "recv").
+	// While a verdict is taken the applications wait with long-lived contexts only (settling).
 	recvCtx, recvCancel := context.WithCancel(ctx)
 	defer recvCancel()
+	var settling atomic.Bool
+	var recvCalls, recvCanceled atomic.Int64
 	var apps sync.WaitGroup
 	for _, s := range sides[1:] {
 		s := s
+		prng := lib.NewRng(e.rng.Int63())
+		doneOnly := kind == "recv-cancelled" && s.ix == 2
 		apps.Add(1)
 		go func() {
 			defer apps.Done()
 			for recvCtx.Err() == nil {
 				r := s.cur()
-				rctx, rc := context.WithTimeout(recvCtx, 30*time.Millisecond)
+				mode := 9
+				if !settling.Load() {
+					mode = prng.Intn(10)
+					if doneOnly {
+						mode = prng.Intn(2)
+					}
+				}
+				var rctx context.Context
+				var rc context.CancelFunc
+				switch mode {
+				case 0: // already cancelled
+					rctx, rc = context.WithCancel(recvCtx)
+					rc()
+				case 1: // deadline in the past
+					rctx, rc = context.WithDeadline(recvCtx, time.Now().Add(-time.Second))
+				case 2: // a few microseconds
+					rctx, rc = context.WithTimeout(recvCtx, time.Duration(1+prng.Intn(200))*time.Microsecond)
+				case 3: // cancelled concurrently
+					c, cc := context.WithCancel(recvCtx)
+					t := time.AfterFunc(time.Duration(prng.Intn(200))*time.Microsecond, cc)
+					rctx, rc = c, func() { t.Stop(); cc() }
+				default:
+					rctx, rc = context.WithTimeout(recvCtx, 30*time.Millisecond)
+				}
 				m, err := r.Recv(rctx)
 				rc()
+				recvCalls.Add(1)
 				if err == nil && m != nil {
 					w.appLog(appEvent{kind: "recv", peer: s.ix, data: string(m.GetSignedMsg().GetData()), seqno: m.GetSeqno(), tkr: r.VerifTrackerID()})
+				} else {
+					recvCanceled.Add(1)
+					if mode <= 1 {
+						// a polling application does not spin
+						time.Sleep(time.Duration(20+prng.Intn(130)) * time.Microsecond)
+					}
 				}
 			}
 		}()
@@ -472,23 +645,131 @@ func (e *engine) scenario(kind string, nMsgs int) {
 	}
 	var actions []string
 	total := nA
-	startSender(sides[1], nA, kind != "reattach")
-	if kind != "reattach" {
+	harnessErr := ""
+	// sendNow: one Send of peer s from the scenario's own schedule; must: the session is (or becomes)
+	// stable, so it has to complete
+	sendCtx := func(s *side, payload []byte, sctx context.Context, must bool) error {
+		w.mtx.Lock()
+		known[string(payload)] = true
+		w.mtx.Unlock()
+		r := s.cur()
+		m, err := r.Send(sctx, payload)
+		switch {
+		case err == nil:
+			w.appLog(appEvent{kind: "send-ok", peer: s.ix, data: string(payload), seqno: m.GetSeqno(), tkr: r.VerifTrackerID()})
+		case !must:
+			w.appLog(appEvent{kind: "send-cancelled", peer: s.ix, data: string(payload)})
+		default:
+			w.appLog(appEvent{kind: "send-err", peer: s.ix, data: string(payload)})
+			stuckMtx.Lock()
+			if stuck == "" {
+				stuck = fmt.Sprintf("a pending Send of peer %d between two stably attached peers did not complete: %v", s.ix, err)
+			}
+			stuckMtx.Unlock()
+		}
+		return err
+	}
+	sendNow := func(s *side, payload []byte, d time.Duration, must bool) error {
+		sctx, sc := context.WithTimeout(ctx, d)
+		defer sc()
+		return sendCtx(s, payload, sctx, must)
+	}
+	const gateWait = 15 * time.Second
+	reattach := func(b *side) {
+		b.mtx.Lock()
+		b.ref.Release()
+		b.ref = b.cl.AddPeerRef(b.peer)
+		w.mtx.Lock()
+		w.tkrOf[b.ref.VerifTrackerID()] = b.ix
+		w.mtx.Unlock()
+		b.mtx.Unlock()
+	}
+	if kind == "reopen-during-write" {
+		// C23: a request of peer `holder` is held on the wire inside the pipe's Send while the session
+		// is re-opened (the partner re-attaches, or the partner's stream fails and re-connects); it
+		// is released once the holder's tracker has processed the re-open; the relay drops it (stale
+		// epoch); the pending Send and all later ones must complete.
+		total = 0
+		parts := strings.SplitN(e.variant, "|", 2)
+		hk, how := parts[0], parts[1]
+		holder, partner := sides[1], sides[2]
+		if hk == "ack" {
+			holder, partner = sides[2], sides[1]
+		}
+		pay := func(tag byte) []byte { return append([]byte{9, tag}, e.rng.Bytes(5)...) }
+		p0, p1, p2, p3 := pay(0), pay(1), pay(2), pay(3)
+		total++
+		if err := sendNow(sides[1], p0, 8*time.Second, true); err == nil {
+			actions = append(actions, "warm-up exchange A->B (both attached, session open)")
+			g := w.armGate(holder.ix, hk)
+			var g2 *wgate
+			pending := make(chan error, 1)
+			switch hk {
+			case "send", "ack":
+				// A's Send: its SendMsg write is held (send), or B's ack for it is held (ack)
+				total++
+				go func() { pending <- sendNow(sides[1], p1, 8*time.Second, true) }()
+			case "clear":
+				// A's Send is transmitted and delivered, B's ack for it is held (so A's message is in
+				// flight, unacknowledged), then A's caller gives up: the ClearMsg write of A is held
+				g2 = w.armGate(2, "ack")
+				total++
+				sctx, sc := context.WithTimeout(ctx, 8*time.Second)
+				defer sc()
+				go func() { pending <- sendCtx(sides[1], p1, sctx, false) }()
+				if g2.waitHeld(gateWait) {
+					sc()
+				}
+			}
+			if !g.waitHeld(gateWait) {
+				w.disarm(g)
+				harnessErr = fmt.Sprintf("the %s write of peer %d was never started", hk, holder.ix)
+			} else {
+				ep0 := g.req.GetSessionSeqno()
+				from := w.cmark()
+				switch how {
+				case "reattach":
+					reattach(partner)
+				case "stream-failure":
+					w.failPipe(partner.ix)
+				}
+				reopened := w.waitCHook(from, holder.ix, gateWait, func(l string) bool {
+					if !strings.HasPrefix(l, "ev=opened ") {
+						return false
+					}
+					ep, _ := strconv.ParseUint(lineKV(l, "a"), 10, 64)
+					return ep > ep0
+				})
+				if !reopened {
+					harnessErr = fmt.Sprintf("peer %d was not told about the re-opened session", holder.ix)
+				}
+				settling.Store(true)
+				w.quiesce(time.Millisecond)
+				settling.Store(false)
+				g.open()
+				actions = append(actions, fmt.Sprintf("peer %d's %s write (epoch %d) is held on the wire; peer %d: %s; peer %d processed the re-open; the write is released (stale epoch: the relay drops it)", holder.ix, hk, ep0, partner.ix, how, holder.ix))
+			}
+			if g2 != nil {
+				w.disarm(g2)
+			}
+			<-pending
+			total += 2
+			sendNow(sides[1], p2, 8*time.Second, true)
+			sendNow(sides[2], p3, 8*time.Second, true)
+			actions = append(actions, "then A and B send one message each")
+		}
+	} else if kind != "reattach" {
+		startSender(sides[1], nA, true)
 		startSender(sides[2], nB, true)
 		total += nB
 		actions = append(actions, fmt.Sprintf("A sends %d, B sends %d (some callers give up after 1-3 ms)", nA, nB))
 	} else {
 		// while A sends, B drops and re-acquires its session a few times, then stays (and then sends too)
+		startSender(sides[1], nA, false)
 		b := sides[2]
 		for i := 0; i < 3; i++ {
 			time.Sleep(time.Duration(200+e.rng.Intn(1500)) * time.Microsecond)
-			b.mtx.Lock()
-			b.ref.Release()
-			b.ref = b.cl.AddPeerRef(b.peer)
-			w.mtx.Lock()
-			w.tkrOf[b.ref.VerifTrackerID()] = 2
-			w.mtx.Unlock()
-			b.mtx.Unlock()
+			reattach(b)
 			actions = append(actions, "B re-attaches")
 		}
 		startSender(b, nB, false)
@@ -504,6 +785,14 @@ func (e *engine) scenario(kind string, nMsgs int) {
 		stuck = "sends did not finish within 40 s"
 		stuckMtx.Unlock()
 	}
+	// no write stays held; while the verdict is taken the applications wait with long-lived contexts
+	w.mtx.Lock()
+	for _, g := range w.gates {
+		g.open()
+	}
+	w.gates = nil
+	w.mtx.Unlock()
+	settling.Store(true)
 	w.quiesce(2 * time.Millisecond)
 	// ---- monitors (model independent) ----
 	mon := ""
@@ -554,6 +843,31 @@ func (e *engine) scenario(kind string, nMsgs int) {
 		knownNow[k] = true
 	}
 	w.mtx.Unlock()
+	// what Recv calls returned to the applications, per (tracker, sequence number)
+	returned := map[string]int{}
+	for _, a := range app {
+		if a.kind == "recv" {
+			returned[a.tkr+"/"+strconv.FormatUint(a.seqno, 10)]++
+		}
+	}
+	// C21 (receiver's half): at quiescence every message a Recv critical section took (marked
+	// processed, so it is acknowledged to its sender) has been returned by that Recv call
+	takenBy := map[string]int{}
+	var takenOrder []string
+	for _, l := range clog {
+		if strings.HasPrefix(l, "ev=recvstep ") && lineKV(l, "flag") == "true" && tkrOf[lineKV(l, "tkr")] != 0 {
+			k := lineKV(l, "tkr") + "/" + lineKV(l, "recv")
+			takenBy[k]++
+			takenOrder = append(takenOrder, k)
+		}
+	}
+	for _, k := range takenOrder {
+		if takenBy[k] > returned[k] && mon == "" {
+			tk := strings.SplitN(k, "/", 2)
+			mon = fmt.Sprintf("a Recv critical section of peer %d took message %s and marked it processed (so it is acknowledged to its sender) but no Recv call returned it to the application (%d of %d Recv calls returned an error)", tkrOf[tk[0]], tk[1], recvCanceled.Load(), recvCalls.Load())
+			key = "sige2e.taken-not-returned:" + kind
+		}
+	}
 	for _, a := range app {
 		switch a.kind {
 		case "send-ok":
@@ -569,10 +883,11 @@ func (e *engine) scenario(kind string, nMsgs int) {
 					}
 				}
 			}
+			// ... by a Recv call that RETURNED it: the partner's application recorded (tracker, seqno)
 			taken := false
 			for i := start + 1; start >= 0 && i < acked; i++ {
 				l := clog[i]
-				if strings.HasPrefix(l, "ev=recvstep ") && tkrOf[lineKV(l, "tkr")] == 3-a.peer && lineKV(l, "flag") == "true" && lineKV(l, "recv") == q {
+				if strings.HasPrefix(l, "ev=recvstep ") && tkrOf[lineKV(l, "tkr")] == 3-a.peer && lineKV(l, "flag") == "true" && lineKV(l, "recv") == q && returned[lineKV(l, "tkr")+"/"+q] > 0 {
 					taken = true
 				}
 			}
@@ -581,7 +896,7 @@ func (e *engine) scenario(kind string, nMsgs int) {
 				key = "sige2e.ack-before-delivery:" + kind
 			}
 			if acked >= 0 && !taken && mon == "" {
-				mon = fmt.Sprintf("Send of message %d by peer %d saw its acknowledgement (client event %d) before any Recv of the partner had taken that message: success reported before the partner's application had received it", a.seqno, a.peer, acked)
+				mon = fmt.Sprintf("Send of message %d by peer %d saw its acknowledgement (client event %d) before any Recv of the partner had taken and returned that message: success reported before the partner's application had received it", a.seqno, a.peer, acked)
 				key = "sige2e.ack-before-delivery:" + kind
 			}
 		case "recv":
@@ -627,15 +942,22 @@ func (e *engine) scenario(kind string, nMsgs int) {
 		impl = "trace-accepted-by-real-system"
 	}
 	br := "e2e." + kind
+	if kind == "reopen-during-write" {
+		br += "." + strings.SplitN(e.variant, "|", 2)[0]
+	}
 	e.rep.Case(fmt.Sprintf("sige2e[%s] msgs=%d %s", kind, total, strings.Join(actions, "; ")), mshort, impl, br, true)
 	if mshort != impl || mon != "" {
 		d := lib.Disagreement{Op: lib.Trunc(op), Model: lib.Trunc(model), Impl: impl, Branch: br, Key: key}
 		if mon != "" {
 			d.Monitor, d.What = "confirmed", mon
+			d.Op = strings.Join(actions, "; ") + " || " + d.Op
 		} else {
 			d.Monitor, d.What = "unconfirmed", "the composed run is not a run of the relay model: "+lib.Trunc(model)
 		}
 		e.rep.Disagree(d)
+	} else if harnessErr != "" {
+		e.rep.Disagree(lib.Disagreement{Op: strings.Join(actions, "; "), Model: mshort, Impl: impl, Branch: br, Key: "sige2e.schedule:" + kind,
+			Monitor: "unconfirmed", What: "the scripted schedule could not be driven on the real system: " + harnessErr})
 	}
 	recvCount := map[string]int{}
 	nOK, nCancelled := 0, 0
@@ -670,6 +992,8 @@ func (e *engine) scenario(kind string, nMsgs int) {
 	e.rep.Extra["redelivered_after_reattach"] = e.rep.Extra["redelivered_after_reattach"].(int) + dups
 	e.rep.Extra["relay_events"] = e.rep.Extra["relay_events"].(int) + strings.Count(tr, ";") + 1
 	e.rep.Extra["client_events"] = e.rep.Extra["client_events"].(int) + len(clog)
+	e.rep.Extra["recv_calls"] = e.rep.Extra["recv_calls"].(int) + int(recvCalls.Load())
+	e.rep.Extra["recv_calls_returned_error"] = e.rep.Extra["recv_calls_returned_error"].(int) + int(recvCanceled.Load())
 	// tear down and wait for everything this scenario started (nothing may log into the next one)
 	recvCancel()
 	for _, s := range sides[1:] {
@@ -704,15 +1028,29 @@ func (e *engine) scenario(kind string, nMsgs int) {
 }
 
 func (e *engine) run() {
-	e.rep.Rule = "two real signaling clients and the real relay composed through in-memory SRPC stream pairs: both peers send 1–10 messages sequentially (each waits for its ack; every fourth caller gives up after 1-3 ms and the next Send must complete) while both applications receive; stable, with B dropping/re-acquiring its session mid-flight, and with the stream of either peer dying silently while a relayed message is in flight (it reconnects while the relay still holds the old stream: the usurp path); monitors: a Send sees its ack only after a Recv of the partner took that message (order of the clients' critical sections) and the partner's application records it, all served sends complete; the relay's trace replayed on the Lean LTS; distinct = scenario"
-	e.rep.Require("e2e.stable", "e2e.reattach", "e2e.usurp", "e2e.usurp.replaced", "e2e.send-cancelled")
-	for _, k := range []string{"messages", "redelivered_after_reattach", "relay_events", "usurped_streams", "sends_ok", "sends_cancelled", "client_events"} {
+	e.rep.Rule = "two real signaling clients and the real relay composed through in-memory SRPC stream pairs: both peers send 1–10 messages sequentially (each waits for its ack; every fourth caller gives up after 1-3 ms and the next Send must complete) while both applications receive with Recv callers of every kind (30 ms, already cancelled, past the deadline, a few microseconds, cancelled concurrently; recv-cancelled: one application polls ONLY with contexts that are already done); stable, with B dropping/re-acquiring its session mid-flight, with the stream of either peer dying silently while a relayed message is in flight (it reconnects while the relay still holds the old stream: the usurp path), and with a request (send / ack / clear) of one peer HELD ON THE WIRE inside the pipe while the partner re-attaches or its stream fails and re-connects, released after the holder processed the re-open (reopen-during-write); monitors: a Send sees its ack only after a Recv of the partner took that message (order of the clients' critical sections) AND that Recv call returned it to the application, every message taken by a Recv critical section is returned by the call, all served sends complete; the relay's trace replayed on the Lean LTS; distinct = scenario"
+	e.rep.Require("e2e.stable", "e2e.reattach", "e2e.usurp", "e2e.usurp.replaced", "e2e.send-cancelled", "e2e.recv-cancelled",
+		"e2e.reopen-during-write.send", "e2e.reopen-during-write.ack", "e2e.reopen-during-write.clear")
+	for _, k := range []string{"messages", "redelivered_after_reattach", "relay_events", "usurped_streams", "sends_ok", "sends_cancelled", "client_events", "recv_calls", "recv_calls_returned_error"} {
 		e.rep.Extra[k] = 0
 	}
+	variants := []string{"send|reattach", "ack|stream-failure", "clear|reattach", "send|stream-failure", "clear|stream-failure"}
+	for _, v := range variants[:3] {
+		e.variant = v
+		e.scenario("reopen-during-write", 1)
+	}
+	e.scenario("recv-cancelled", 3+e.rng.Intn(5))
 	for i := 0; i < 4*e.a.Scale; i++ {
 		e.scenario("stable", 3+e.rng.Intn(8))
 		e.scenario("reattach", 3+e.rng.Intn(8))
 		e.scenario("usurp", 3+e.rng.Intn(8))
+		if i > 0 {
+			e.variant = variants[e.rng.Intn(len(variants))]
+			e.scenario("reopen-during-write", 1)
+			if i%4 == 0 {
+				e.scenario("recv-cancelled", 3+e.rng.Intn(8))
+			}
+		}
 	}
 }
 
